@@ -45,6 +45,19 @@ fn main() {
 			println!("jrsim: done in {:.1}s, exit {code}", start.elapsed().as_secs_f64());
 			std::process::exit(code);
 		}
+		"check-inner" => {
+			let tier = if args.get(3).map(String::as_str) == Some("thorough") { Tier::Thorough } else { Tier::Quick };
+			std::process::exit(checks::check_inner(&args[2], tier, seed, workers));
+		}
+		"range" => {
+			let tier = if args.get(3).map(String::as_str) == Some("thorough") { Tier::Thorough } else { Tier::Quick };
+			let lo: u64 = args.get(4).and_then(|s| s.parse().ok()).unwrap_or(0);
+			let hi: u64 = args.get(5).and_then(|s| s.parse().ok()).unwrap_or(0);
+			std::process::exit(checks::range(&args[2], tier, seed, workers, lo, hi));
+		}
+		"run-plan" => {
+			std::process::exit(checks::run_plan(&args[2], &args[3]));
+		}
 		"replay" => {
 			if args.len() < 3 {
 				usage();
